@@ -39,6 +39,8 @@ pub fn content(name: &str, version: u16) -> Option<Node> {
         "punct-names" => vec![stream("ab", 10, 0), stream("a_", 20, 0), stream("a`", 30, 0), stream("a{", 40, 0)],
         // order decided by upper-casing non-ASCII letters (omega+a < OMEGA+b, e-acute+a < E-ACUTE+b)
         "cased-names" => vec![stream("\u{3c9}a", 10, 0), stream("\u{3a9}b", 20, 0), stream("\u{e9}a", 30, 0), stream("\u{c9}b", 40, 0)],
+        // more than 128 sectors in V3: two FAT sectors that both matter
+        "two-fat" => vec![stream("big", 70_000, 5), stream("s", 100, 6)],
         "three-minis" => vec![stream("m1", 130, 0), stream("m2", 64, 0), stream("m3", 1, 0)],
         "nested" => vec![storage("d", vec![storage("e", vec![stream("f", 100, 9)]), stream("g", 5000, 0)]), stream("h", 3, 0)],
         "empty" => vec![],
@@ -50,9 +52,9 @@ pub fn content(name: &str, version: u16) -> Option<Node> {
     Some(root)
 }
 
-pub const CONTENTS: [&str; 8] = ["empty", "two-mini", "one-big", "three-mixed", "four-sizes", "four-names", "three-minis", "nested"];
+pub const CONTENTS: [&str; 9] = ["empty", "two-mini", "one-big", "three-mixed", "four-sizes", "four-names", "three-minis", "nested", "two-fat"];
 /// Contents of the layout enumeration (C04): the above plus two whose sibling order hinges on case folding.
-pub const LAYOUT_CONTENTS: [&str; 10] = ["empty", "two-mini", "one-big", "three-mixed", "four-sizes", "four-names", "three-minis", "nested", "punct-names", "cased-names"];
+pub const LAYOUT_CONTENTS: [&str; 11] = ["empty", "two-mini", "one-big", "three-mixed", "four-sizes", "four-names", "three-minis", "nested", "punct-names", "cased-names", "two-fat"];
 
 #[derive(Clone, Debug, Serialize, Deserialize)]
 pub struct LayoutCase {
@@ -130,7 +132,8 @@ pub fn layouts(cname: &str, version: u16, thorough: bool) -> Vec<(Layout, bool)>
         }
     }
     // (viii) interior free sectors: every logical sector moved up by g, leaving gaps
-    for g in [2u32, 3] {
+    // (not for contents so large that the gaps would change the number of FAT sectors)
+    for g in if lsec <= 40 { vec![2u32, 3] } else { vec![] } {
         let spread: Vec<u32> = ids.iter().map(|&i| i * g + (g - 1)).collect();
         out.push((Layout { sector_perm: spread.clone(), ..base.clone() }, true));
         let mut srev = spread.clone();
